@@ -113,7 +113,7 @@ Qed.
 Lemma nn_run s ops : 1 <= c_nnonce (sC s) -> 1 <= c_nnonce (sC (run s ops)).
 Proof. revert s. induction ops as [|o ops IH]; intros s H; [assumption|]. cbn. apply IH. apply nn_sys_step. assumption. Qed.
 
-Lemma nn_reach sess notify W ops : 1 <= c_nnonce (sC (run (sys_init sess notify W) ops)).
+Lemma nn_reach sess notify W fx ops : 1 <= c_nnonce (sC (run (sys_init sess notify W fx) ops)).
 Proof. apply nn_run. cbn. lia. Qed.
 
 (* ------------------------------------------------------------------ exact effect of the steps of the continuation *)
